@@ -10,7 +10,13 @@ Oracles on the implementation's replies alone (delgen.py):
     ingestion requests removed must produce exactly the same replies — accepted groups are processed as if no lists existed.
 Modes: deny (denylist only), allow (allowlist only), both (complementary lists), wide (allowlist matching every name + denylist:
 rejected names are matched by both lists); in allow/both the ids 0 (empty name) and >= 10 are matched by neither list and must
-be rejected through the allowlist alone."""
+be rejected through the allowlist alone.
+Present-but-empty keys (a deployed burrow.toml ships `group-allowlist=""`): modes edeny / eallow / eboth (only empty keys:
+NOTHING may be rejected — the positive half then says the replies equal those of the list-free run of the same history),
+edeny_allow / eallow_deny (an empty key next to a real pattern on the other list).  Configuration path suffix @set / @toml /
+@dflt: every option (lists, intervals, expire-group, min-distance, workers, queue-depth) reaches the module through the real
+Configure, from viper.Set keys or from a TOML document read with viper.ReadConfig; @dflt leaves intervals / expire-group /
+min-distance out so that the documented defaults (10, 604800, 0 — the header values given to the model) are exercised."""
 import common as C
 import storage_common as SC
 import storagegen
@@ -73,6 +79,10 @@ def run_part(chk, n=None):
         if rej_ingest and acc_data:
             chk.nontrivial.add(C.case_hash(ln))
             chk.count("st:rejected-ingested-and-accepted-reported")
+        mode_tok = G.parse_header(head)["mode"]
+        if mode_tok.startswith("e") and acc_data:
+            chk.nontrivial.add(C.case_hash(ln))
+            chk.count("st:empty-list-key-and-group-reported")
     for i in (0, len(lines) // 2):
         chk.sample({"case": lines[i][:600], "impl": impl[i][:600], "model": model[i][:600]})
 
@@ -117,6 +127,8 @@ def run_part(chk, n=None):
         "storage lists: the probe turns the header's rejected-id set into real group-allowlist / group-denylist regexps (deny: ^(g3|g5)$; "
         "allow: ^(g1|g2|..)$ over ids 0..9; both: both; wide: allowlist ^(g[0-9]+)?$ + the denylist, so rejected names match BOTH lists); "
         "the model's cf_accept is membership in that id set; ids 0 (empty name) and >= 10 are matched by NEITHER list in allow/both mode",
+        "a list key that is present but empty means `no list` (model: cf_accept accepts; HEAD: GetString(key) != \"\"); modes edeny/eallow/eboth/"
+        "edeny_allow/eallow_deny set such keys through viper.Set and through a TOML document (viper.ReadConfig); @dflt exercises Configure's defaults",
     ]
     return {"cases": len(lines), "mismatches": len(mism), "oracle_failures": found}
 
